@@ -285,13 +285,17 @@ Proof.
       rewrite P. apply (IH j w Hw).
 Qed.
 
+(* TIME OF LAST OBS, if present in meta, carries the year Y *)
+Definition last_inv (Y : Z) (s : st) : Prop :=
+  match meta_str "time_last_obs" s with Some tl => take 4 tl = render_nat Y | None => True end.
+
 Section EpochLine2.
   Variable rate : option Q.
   Variables (Y fmo fd fh fmi : Z) (fsec : Q).
   Hypothesis HY : (1000 <= Y < 10000)%Z.
 
   Definition inv2_meta (s : st) : Prop :=
-    meta_str "time_first_obs" s = Some (time_text Y fmo fd fh fmi fsec) /\ meta_str "time_last_obs" s = None.
+    meta_str "time_first_obs" s = Some (time_text Y fmo fd fh fmi fsec) /\ last_inv Y s.
 
   Lemma v2_first_line t nsat ids s c :
     inv2_meta s -> epoch_t_wf t -> (ep_y t / 100 = Y / 100)%Z ->
@@ -376,7 +380,10 @@ Section EpochLine2.
     assert (Ny : String.eqb (if ep_zero t then digits_fixed 2 (ep_y t mod 100) else render_nat (ep_y t mod 100)) "" = false).
     { pose proof (isnumeric_year (ep_zero t) (ep_y t mod 100)) as N.
       destruct (if ep_zero t then digits_fixed 2 (ep_y t mod 100) else render_nat (ep_y t mod 100)); [discriminate|reflexivity]. }
-    rewrite Ny, M1, M2. destruct (first_year Y fmo fd fh fmi fsec HY) as [F4 F2]. rewrite F4, String.eqb_refl. cbn [negb].
+    rewrite Ny, M1. destruct (first_year Y fmo fd fh fmi fsec HY) as [F4 F2]. rewrite F4.
+    assert (LO : match meta_str "time_last_obs" s with Some tl => String.eqb (take 4 tl) (render_nat Y) | None => true end = true).
+    { unfold last_inv in M2. destruct (meta_str "time_last_obs" s); [rewrite M2; apply String.eqb_refl|reflexivity]. }
+    rewrite LO. cbn [negb].
     rewrite F2, zfill_year by exact Yy.
     rewrite parse_int_two by (first [exact Yy | split; [apply Z.div_pos; lia|apply Z.div_lt_upper_bound; lia]]).
     assert (Ey : (Y / 100 * 100 + ep_y t mod 100 = ep_y t)%Z) by (rewrite <- Hc; pose proof (Z.div_mod (ep_y t) 100); lia).
